@@ -299,7 +299,8 @@ def gkf_text(net, values=None):
     P = pmap(net)
     values = values or observed_values(net)
     o = ['<?xml version="1.0" ?>\n<gama-local xmlns="http://www.gnu.org/software/gama/gama-local">\n']
-    o.append('<network axes-xy="%s" angles="%s">\n' % (net["axes"], net["angles"]))
+    ep = ' epoch="%s"' % net["epoch"] if net.get("epoch") is not None else ""
+    o.append('<network axes-xy="%s" angles="%s"%s>\n' % (net["axes"], net["angles"], ep))
     if net.get("description") is not None:
         o.append("<description>%s</description>\n" % xml_escape(net["description"], attr=False))
     if net.get("params"):
